@@ -87,7 +87,7 @@ package collect
 //@   ensures[kept-rate-is-client-times-trace] keep && !i.Config.GetIsDryRun() ==> enqRate(i.Transmission) == toInt(clientRate(old(sp.SampleRate))) * toInt(rate)
 //@   ensures[dropped-goes-nowhere] !keep ==> enqN(i.Transmission) == old(enqN(i.Transmission)) && owns(sp.Event)
 //@   ensures[never-buffered] addedN(i) == old(addedN(i))
-//@   modifies sp.SampleRate, sp.Data, all(recN), all(recKept), all(recID), all(recRate), all(enqN), all(enqLast), all(enqHost), all(enqKey), all(enqDataset), all(enqProbe), all(enqStressed), all(enqRate), all(owns)
+//@   modifies sp.SampleRate, sp.Data, all(recN), all(recKept), all(recID), all(recRate), all(askedN), all(enqN), all(enqLast), all(enqHost), all(enqKey), all(enqDataset), all(enqProbe), all(enqStressed), all(enqRate), all(owns)
 
 // ---- C05 / C06 / C01: a span arriving after its trace was decided follows that decision.
 // Forwarded (exactly once) iff the trace was kept or dry run is on; never for a dropped trace.
@@ -198,10 +198,10 @@ package collect
 //@ spec buffered(c cache.Cache, id string) *types.Trace := asPtr(cached(c, id), *types.Trace)
 //@ contract collect.(*CollectorWorker).processSpan props C01,C02,C03,C05
 //@   arith math
-//@   requires cl != nil && cl.parent != nil && sp != nil && sp.Event != nil && owns(sp.Event)
+//@   requires[span-in-hand@C01,C02,C03,C05] cl != nil && cl.parent != nil && sp != nil && sp.Event != nil && owns(sp.Event)
 //@   let tr0 = buffered(cl.cache, sp.TraceID)
-//@   requires[buffered-traces-are-undecided] tr0 != nil ==> !tr0.Sent
-//@   requires[buffer-is-keyed-by-trace-id] tr0 != nil ==> tr0.TraceID == sp.TraceID
+//@   requires[buffered-traces-are-undecided@C01,C02,C03,C05] tr0 != nil ==> !tr0.Sent
+//@   requires[buffer-is-keyed-by-trace-id@C01,C02,C03,C05] tr0 != nil ==> tr0.TraceID == sp.TraceID
 //@   domain[additional-attributes-are-user-fields] attrsAreUserFields(cl.parent.Config.GetAdditionalAttributes())
 //@   domain[rates-in-range] sp.SampleRate < 1<<31
 //@   let found = result2of(cl.sampleCache.CheckSpan(sp))
@@ -237,7 +237,7 @@ package collect
 //@   ensures[one-take-per-tick-bounded] takeN(c) == old(takeN(c)) + 1 && takeMax(c) == toInt(max) && takeNow(c) == now
 //@   loop 1 invariant[take] takeN(c) == old(takeN(c)) + 1 && takeMax(c) == toInt(max) && takeNow(c) == now && cl != nil && cl.parent != nil
 //@   loop 1 invariant[traces] forall j int :: 0 <= j && j < len(traces) ==> traces[j] != nil && spansPresent(traces[j])
-//@   modifies all(recN), all(recKept), all(recID), all(recRate), all(sendN), all(sendLastReason), all(sendLastTrace), all(sentN), all(cached), all(takeN), all(takeMax), all(takeNow), cl.datasetSamplers, field(types.Trace, Sent), field(types.Trace, sampleRate), field(types.Trace, KeepSample), field(types.Event, Data.MetaSpanEventCount), field(types.Event, Data.MetaSpanLinkCount), field(types.Event, Data.MetaSpanCount), field(types.Event, Data.MetaEventCount), field(types.Event, Data.memoizedFields), field(types.Event, Data.missingFields)
+//@   modifies all(recN), all(recKept), all(recID), all(recRate), all(askedN), all(sendN), all(sendLastReason), all(sendLastTrace), all(sentN), all(cached), all(takeN), all(takeMax), all(takeNow), cl.datasetSamplers, field(types.Trace, Sent), field(types.Trace, sampleRate), field(types.Trace, KeepSample), field(types.Event, Data.MetaSpanEventCount), field(types.Event, Data.MetaSpanLinkCount), field(types.Event, Data.MetaSpanCount), field(types.Event, Data.MetaEventCount), field(types.Event, Data.memoizedFields), field(types.Event, Data.missingFields)
 
 // One expired trace of a send tick: decided once, with the documented send reason, and handed to send once.
 //@ spec spansPresent(t *types.Trace) bool := forall k int :: 0 <= k && k < len(t.spans) ==> t.spans[k] != nil && t.spans[k].Event != nil
@@ -250,7 +250,7 @@ package collect
 //@   let par = cl.parent
 //@   ensures[decided-once-with-the-documented-reason] !old(t.Sent) ==> recN(sc) == old(recN(sc)) + 1 && recID(sc) == t.TraceID && sendN(par) == old(sendN(par)) + 1 && toInt(sendLastTrace(par)) == toInt(t) && sendLastReason(par) == expiryReason(t.RootSpan != nil, len(t.spans), toInt(spanLimit)) && t.Sent
 //@   ensures[already-sent-is-skipped] old(t.Sent) ==> recN(sc) == old(recN(sc)) && sendN(par) == old(sendN(par))
-//@   modifies all(recN), all(recKept), all(recID), all(recRate), all(sendN), all(sendLastReason), all(sendLastTrace), all(sentN), cl.datasetSamplers, t.Sent, t.sampleRate, t.KeepSample, field(types.Event, Data.MetaSpanEventCount), field(types.Event, Data.MetaSpanLinkCount), field(types.Event, Data.MetaSpanCount), field(types.Event, Data.MetaEventCount), field(types.Event, Data.memoizedFields), field(types.Event, Data.missingFields)
+//@   modifies all(recN), all(recKept), all(recID), all(recRate), all(askedN), all(sendN), all(sendLastReason), all(sendLastTrace), all(sentN), cl.datasetSamplers, t.Sent, t.sampleRate, t.KeepSample, field(types.Event, Data.MetaSpanEventCount), field(types.Event, Data.MetaSpanLinkCount), field(types.Event, Data.MetaSpanCount), field(types.Event, Data.MetaEventCount), field(types.Event, Data.memoizedFields), field(types.Event, Data.missingFields)
 
 // ---- C07: memory-pressure ejection. Heaviest first; each visited trace is decided with the memory
 // reason and handed to send; the visit stops as soon as the released size exceeds the request;
@@ -263,14 +263,14 @@ package collect
 //@   ensures[decided-with-the-memory-reason] !old(trace.Sent) ==> recN(sc) == old(recN(sc)) + 1 && recID(sc) == trace.TraceID && sendN(par) == old(sendN(par)) + 1 && toInt(sendLastTrace(par)) == toInt(trace) && sendLastReason(par) == TraceSendEjectedMemsize && trace.Sent
 //@   ensures[released-size-counted] !old(trace.Sent) ==> totalDataSizeSent == old(totalDataSizeSent) + trace.DataSize && in(tracesSent, trace.TraceID)
 //@   ensures[already-sent-is-skipped] old(trace.Sent) ==> recN(sc) == old(recN(sc)) && sendN(par) == old(sendN(par)) && totalDataSizeSent == old(totalDataSizeSent)
-//@   modifies all(recN), all(recKept), all(recID), all(recRate), all(sendN), all(sendLastReason), all(sendLastTrace), all(sentN), cl.datasetSamplers, trace.Sent, trace.sampleRate, trace.KeepSample, field(types.Event, Data.MetaSpanEventCount), field(types.Event, Data.MetaSpanLinkCount), field(types.Event, Data.MetaSpanCount), field(types.Event, Data.MetaEventCount), field(types.Event, Data.memoizedFields), field(types.Event, Data.missingFields)
+//@   modifies all(recN), all(recKept), all(recID), all(recRate), all(askedN), all(sendN), all(sendLastReason), all(sendLastTrace), all(sentN), cl.datasetSamplers, trace.Sent, trace.sampleRate, trace.KeepSample, field(types.Event, Data.MetaSpanEventCount), field(types.Event, Data.MetaSpanLinkCount), field(types.Event, Data.MetaSpanCount), field(types.Event, Data.MetaEventCount), field(types.Event, Data.memoizedFields), field(types.Event, Data.missingFields)
 
 //@ contract collect.(*CollectorWorker).sendTracesEarly props C07
 //@   arith math
 //@   requires cl != nil && cl.parent != nil
-//@   requires[a-positive-amount-is-requested] sendEarlyBytes >= 0
+//@   requires[a-positive-amount-is-requested@C07] sendEarlyBytes >= 0
 //@   let c = cl.cache
-//@   requires[buffered-traces-are-undecided] forall k string :: toInt(cached(c, k)) != 0 ==> !buffered(c, k).Sent && buffered(c, k).TraceID == k
+//@   requires[buffered-traces-are-undecided@C07] forall k string :: toInt(cached(c, k)) != 0 ==> !buffered(c, k).Sent && buffered(c, k).TraceID == k
 //@   ensures[decided-traces-leave-the-buffer] forall k string :: toInt(cached(c, k)) != 0 ==> !buffered(c, k).Sent
 //@   loop 1 invariant[visit] cl != nil && cl.parent != nil && toInt(c) == toInt(cl.cache) && (forall j int :: 0 <= j && j < len(allTraces) ==> allTraces[j] != nil && spansPresent(allTraces[j]) && toInt(cached(c, allTraces[j].TraceID)) == toInt(allTraces[j]))
 //@   loop 1 invariant[heaviest-first] forall a int, b int :: 0 <= a && a < b && b < len(allTraces) ==> allTraces[a].CacheImpact(traceTimeout) >= allTraces[b].CacheImpact(traceTimeout)
@@ -278,7 +278,7 @@ package collect
 //@   loop 1 invariant[sent-are-listed] forall k string :: toInt(cached(c, k)) != 0 && buffered(c, k).Sent ==> in(tracesSent, k)
 //@   loop 1 invariant[buffer-unchanged] forall k string :: toInt(cached(c, k)) == toInt(old(cached(c, k)))
 //@   loop 1 exits[stops-only-when-enough-or-empty] totalDataSizeSent > sendEarlyBytes || iter == len(allTraces)
-//@   modifies cl.lastCacheSize, all(recN), all(recKept), all(recID), all(recRate), all(sendN), all(sendLastReason), all(sendLastTrace), all(sentN), all(cached), cl.datasetSamplers, field(types.Trace, Sent), field(types.Trace, sampleRate), field(types.Trace, KeepSample), field(types.Event, Data.MetaSpanEventCount), field(types.Event, Data.MetaSpanLinkCount), field(types.Event, Data.MetaSpanCount), field(types.Event, Data.MetaEventCount), field(types.Event, Data.memoizedFields), field(types.Event, Data.missingFields)
+//@   modifies cl.lastCacheSize, all(recN), all(recKept), all(recID), all(recRate), all(askedN), all(sendN), all(sendLastReason), all(sendLastTrace), all(sentN), all(cached), cl.datasetSamplers, field(types.Trace, Sent), field(types.Trace, sampleRate), field(types.Trace, KeepSample), field(types.Event, Data.MetaSpanEventCount), field(types.Event, Data.MetaSpanLinkCount), field(types.Event, Data.MetaSpanCount), field(types.Event, Data.MetaEventCount), field(types.Event, Data.memoizedFields), field(types.Event, Data.missingFields)
 
 // checkAlloc: over budget, every worker is asked exactly once to release an equal share of the overage;
 // within budget nobody is asked.
@@ -392,3 +392,52 @@ package collect
 // (formula is written and read by the Recalc goroutine only; Start runs before the reliever is shared.)
 //@ guarded_by collect.StressRelief.lock: mode, activateLevel, deactivateLevel, sampleRate, upperBound, overallStressLevel, reason, stressed, stayOnUntil, minDuration, stressLevels
 //@ lockdiscipline collect.StressRelief lock props C35 skip: Start
+
+// ---- C36: graceful shutdown. Stop() closes the worker's input channels; the worker's loop returns when it
+// sees a closed channel. The statement (and the README's account of restarts) asks that every trace still
+// buffered is decided first. The loop returns at once: nothing decides the remaining buffer (open finding
+// F-C36-1, witness in /verif/findings).
+// a worker's parent, buffer and decision cache are set when it is built and never replaced
+//@ final collect.CollectorWorker.parent
+//@ final collect.CollectorWorker.cache
+//@ final collect.CollectorWorker.sampleCache
+//@ contract collect.(*CollectorWorker).collect props C36 havocheap noinv
+//@   arith math
+//@   assert only none
+//@   requires cl != nil && cl.parent != nil
+//@   let c = cl.cache
+//@   loop 1 invariant cl != nil && cl.parent != nil
+//@   finding F-C36-1 ensures[leaving-the-loop-leaves-nothing-buffered] forall k string :: toInt(cached(c, k)) == 0
+//@   modifies all(cached), all(takeN), all(takeMax), all(takeNow), all(enqN), all(enqLast), all(enqHost), all(enqKey), all(enqDataset), all(enqProbe), all(enqStressed), all(enqRate), all(owns), all(recN), all(recKept), all(recID), all(recRate), all(sendN), all(sendLastReason), all(sendLastTrace), all(sentN), all(askedN), all(lruHas), all(lruVal), all(lruLen), all(lruAge)
+
+// InMemCollector.Stop: announces shutdown, marks the collector not ready, closes every worker's two input
+// channels exactly once, and closes the outgoing queue exactly once (closing a closed or nil channel would
+// panic: proved absent given the channels are open when Stop is called).
+//@ ghost closedN(ref) int
+//@ assume internal/health.Recorder.Unregister
+//@   ghostupdate unregN(this) :: unregN(this) == old(unregN(this)) + 1
+//@ ghost unregN(ref) int
+//@ assume collect/cache.TraceSentCache.Stop
+//@ contract collect.(*CollectorWorker).Stop props C36
+//@   requires cw != nil
+//@   modifies nothing
+//@ final collect.InMemCollector.workers
+//@ final collect.InMemCollector.done
+//@ final collect.InMemCollector.tracesToSend
+//@ final collect.InMemCollector.Health
+//@ final collect.CollectorWorker.incoming
+//@ final collect.CollectorWorker.fromPeer
+//@ contract collect.(*InMemCollector).Stop props C36
+//@   arith math
+//@   requires i != nil && i.done != nil && i.tracesToSend != nil
+//@   requires[workers-built] forall k int :: 0 <= k && k < len(i.workers) ==> i.workers[k] != nil && i.workers[k].incoming != nil && i.workers[k].fromPeer != nil
+//@   requires[own-channels] forall a int, b int :: 0 <= a && a < b && b < len(i.workers) ==> toInt(refOf(i.workers[a].incoming)) != toInt(refOf(i.workers[b].incoming)) && toInt(refOf(i.workers[a].fromPeer)) != toInt(refOf(i.workers[b].fromPeer))
+//@   requires[channels-distinct] forall a int, b int :: 0 <= a && a < len(i.workers) && 0 <= b && b < len(i.workers) ==> toInt(refOf(i.workers[a].incoming)) != toInt(refOf(i.workers[b].fromPeer)) && toInt(refOf(i.workers[a].incoming)) != toInt(refOf(i.done)) && toInt(refOf(i.workers[a].fromPeer)) != toInt(refOf(i.done)) && toInt(refOf(i.workers[a].incoming)) != toInt(refOf(i.tracesToSend)) && toInt(refOf(i.workers[a].fromPeer)) != toInt(refOf(i.tracesToSend))
+//@   requires[nothing-closed-yet] closedN(i.done) == 0 && closedN(i.tracesToSend) == 0 && toInt(refOf(i.done)) != toInt(refOf(i.tracesToSend)) && (forall k int :: 0 <= k && k < len(i.workers) ==> closedN(i.workers[k].incoming) == 0 && closedN(i.workers[k].fromPeer) == 0)
+//@   ensures[shutdown-announced-and-not-ready] closedN(i.done) == 1 && unregN(i.Health) == old(unregN(i.Health)) + 1
+//@   ensures[every-worker-input-closed-once] forall k int :: 0 <= k && k < len(i.workers) ==> closedN(i.workers[k].incoming) == 1 && closedN(i.workers[k].fromPeer) == 1
+//@   ensures[outgoing-queue-closed-once] closedN(i.tracesToSend) == 1
+//@   ensures[no-error] result == nil
+//@   loop 1 invariant closedN(i.done) == 1 && closedN(i.tracesToSend) == 0 && (forall k int :: 0 <= k && k < iter ==> closedN(i.workers[k].incoming) == 1 && closedN(i.workers[k].fromPeer) == 1) && (forall k int :: iter <= k && k < len(i.workers) ==> closedN(i.workers[k].incoming) == 0 && closedN(i.workers[k].fromPeer) == 0)
+//@   loop 2 invariant closedN(i.done) == 1 && closedN(i.tracesToSend) == 0 && (forall k int :: 0 <= k && k < len(i.workers) ==> closedN(i.workers[k].incoming) == 1 && closedN(i.workers[k].fromPeer) == 1)
+//@   modifies all(closedN), unregN(i.Health)
